@@ -336,6 +336,8 @@ def dead_stores(ctx, funcs, rule='DEADSTORE'):
                 continue
             if len(node.ast.targets) != 1 or not isinstance(node.ast.targets[0], ast.Name):
                 continue            # tuple unpacking: unused fields are normal
+            if node.ast.targets[0].id != name:
+                continue            # a `:=` inside the assigned expression, read by that expression
             n += 1
             if d not in used:
                 ctx.violation(rule, f"{fi.qualname}: the value computed for `{name}` is used",
